@@ -2,8 +2,8 @@
 from .. import lib, runner
 
 PROP = "C14"
-THEOREMS = []
-IMPORTS = ["SocVerif.CsrMon"]
+THEOREMS = ["CsrMon.mux_inside", "CsrMon.layout_fits", "CsrMon.irq_line", "CsrMon.no_clear_without_write", "CsrMon.pending_w1c", "CsrMon.enable_latched", "CsrMon.enable_kept", "CsrMon.mask_read_atomic"]
+IMPORTS = ["SocVerif.Props.C14"]
 
 
 def run(rep, tier):
